@@ -196,7 +196,22 @@ def is_(it, a, b):
     return False
 
 
+def absset_member(it, container, x):
+    from .sym import SAbsSet  # noqa: F401
+    if not is_str(x):
+        return False
+    cs = str_chars(x)
+    r = False
+    if len(cs) == 9:
+        r = mk_bool(container.fn(*[char_term(c) for c in cs]))
+    for e in container.extra:
+        r = or_values(it, r, as_bool_value(it, eq(it, x, e)))
+    return r
+
+
 def contains(it, container, x):
+    if type(container).__name__ == "SAbsSet":
+        return absset_member(it, container, x)
     if isinstance(container, Opaque):
         raise Unsupported("in opaque")
     if is_str(container):
@@ -592,6 +607,8 @@ def delitem(it, obj, idx):
 def iterate(it, v):
     if isinstance(v, (list, tuple, range, types.GeneratorType)):
         return v
+    if type(v).__name__ == "deque":
+        return list(v)
     if isinstance(v, dict):
         return list(v.keys())
     if is_str(v):
